@@ -31,7 +31,7 @@ THEOREMS = [
     "C17.AsIs.tlwt_boundary_counter",
     "C17.AsIs.tlwt_no_age_rule",
 ]
-RULE = ("timelines of 0..7 elements + terminal (completed/error/none, 12% non-conforming or with pre-subscription messages) placed before/at/after "
+RULE = ("20% of the non-mapper cases subscribe the SAME observable instance a second time (overlapping or later) and compare with a fresh single subscription; timelines of 0..7 elements + terminal (completed/error/none, 12% non-conforming or with pre-subscription messages) placed before/at/after "
         "every boundary (subscription+duration, absolute end/start times incl. past ones, completion-duration, last element+due time), bursts, "
         "gaps d-1/d/d+1, simultaneous arrivals; hot and cold sources; non-trivial = output differs from the source as seen or a timer decided the outcome")
 ASSUMPTIONS = ["virtual time in integer ticks on TestScheduler; hot source messages are scheduled before the operator's timers (source wins ties); "
@@ -91,7 +91,9 @@ def cases(rng, tier):
                 if rng.random() < 0.5:
                     c["other"] = None
                 else:
-                    osrc = rng.choice(["hot", "cold"])
+                    # (a hot fallback subscribed from inside the source's own action may still get its message of that very
+                    # instant: keep the fallback cold when a timer observable can fire inline)
+                    osrc = "cold" if any(isinstance(x, dict) for x in c["inners"]) else rng.choice(["hot", "cold"])
                     om = T.gen_msgs(rng, d, marks + [t + d for t, _ in msgs[:3]], nmax=3, malformed=0.05)
                     c["other"] = {"src": osrc, "msgs": T.to_cold(om) if osrc == "cold" else om}
             else:  # timeout
@@ -111,6 +113,10 @@ def cases(rng, tier):
                     osrc = rng.choice(["hot", "cold"])
                     om = T.gen_msgs(rng, d, marks + [t + d for t, _ in msgs[:3]], nmax=3, malformed=0.05)
                     c["other"] = {"src": osrc, "msgs": T.to_cold(om) if osrc == "cold" else om}
+            if op not in ('timeout_with_mapper',):
+                t2 = T.gen_sub2(rng, msgs, p=0.2)
+                if t2 is not None:
+                    c["sub2"] = t2          # the same observable instance subscribed again: state must be per subscription
             c["msgs"] = T.to_cold(msgs) if src == "cold" else msgs
             yield c
 
@@ -240,7 +246,7 @@ def expected(case):
         # the timer observable of the latest element (first_timeout before any element) decides: its first signal switches to the
         # fallback (its error is forwarded); never after the source terminated
         first = [[SUB + r, ("inner", 0, m)] for r, m in T.conform(case["first"] or [])]
-        srcs = [[t, ("src", n)] for t, n in src]
+        srcs = T.src_stream(src, case["inners"], off=1)
         streams = ([first, srcs] if case["src"] == "cold" else [srcs, first]) + T.elem_streams(src, case["inners"], off=1)
         out, cur, k = [], 0, 0
         for t, e in T.merged_events(streams):
@@ -269,7 +275,7 @@ def oracle(case, io):
     exp = expected(case)
     if fw.key(exp) != fw.key(io["out"]):
         return f"{case['op']}: expected {exp} got {io['out']}"
-    return None
+    return T.second_sub_oracle(case, io)
 
 
 def nontrivial(case, io):
@@ -278,6 +284,7 @@ def nontrivial(case, io):
 
 def bucket(case, io):
     yield from T.shape(case, io)
+    yield f"{case['op']}:second-subscription={'sub2' in case}"
     if case["op"] in ("take_with_time", "skip_with_time", "take_until_with_time", "skip_until_with_time"):
         b = boundary(case)
         ts = [m[0] for m in T.seen(case)]
@@ -295,6 +302,10 @@ def bucket(case, io):
 
 def shrink(case):
     yield from T.shrink_msgs(case)
+    if "sub2" in case:
+        c = dict(case)
+        del c["sub2"]
+        yield c
     if case.get("other"):
         c = dict(case)
         c["other"] = None
